@@ -30,6 +30,10 @@ Equidistributed ==
         \* the measured share of the density's mass (quadrature of the grid object's own density between the observed nodes)
         THEN /\ Len(o.mass) = N
              /\ \A k \in 1..N : Leq(AbsR(Sub(Q(o.mass[k][1], o.mass[k][2]), Q(1, N))), Q(1, 256))
+             \* a bound on the interval length acts on *every* interval: among the observed bound rows (slope of the row
+             \* with respect to the free horizon) there is one for each interval's share of the horizon
+             /\ \A k \in 1..N : \E j \in 1..Len(o.bslopes) :
+                    Leq(AbsR(Sub(Q(o.bslopes[j][1], o.bslopes[j][2]), Sub(Node(o, k + 1), Node(o, k)))), Q(1, 1024))
         ELSE \A k \in 1..N + 1 : LET dlt == AbsR(Sub(E(o, Node(o, k)), Q(k - 1, N))) IN IsBad(dlt) \/ Leq(dlt, Q(1, 64))
 Verdict == TLCSet(1, TLCGet(1) @@ (i :> Equidistributed))
 Post == /\ \A k \in DOMAIN TLCGet(1) : PrintT(<<"DENSITY", Obs[k].id, TLCGet(1)[k]>>)
